@@ -74,11 +74,11 @@ PROPS = {
     "C02": dict(probes=["v3"], functions=CANON + SERIAL + PARSER, lean=["roundtrip", "layout", "parser", "canonicalize"], diff=["pipeline", "parser"], bounded=[("c02", None)]),
     "C03": dict(probes=["v3"], functions=CANON + SERIAL + PARSER, lean=["final", "roundtrip", "layout", "parser", "canonicalize", "finallabels"], diff=["pipeline", "parser"], bounded=[("pipeline", "c03")]),
     "C04": dict(probes=["v3"], functions=CANON, lean=["canonicalize"], diff=["pipeline"], bounded=[("pipeline", "c04")]),
-    "C05": dict(functions=SERIAL + V3000 + V2000, lean=["pipeline", "layout", "serialize", "reader"], diff=["pipeline"], bounded=[("c05", None)]),
+    "C05": dict(functions=CANON + SERIAL + V3000 + V2000, lean=["pipeline", "layout", "serialize", "reader"], diff=["pipeline"], bounded=[("c05", None)]),
     "C06": dict(functions=CANON + SERIAL + V3000 + V2000, lean=["final", "pipeline", "reader", "v3000", "v2000"], diff=["pipeline", "io"], bounded=[("c06", None)]),
     "C07": dict(functions=V3000, lean=["reader", "v30line", "v3000"], diff=["io"], bounded=[("c07", None)]),
-    "C08": dict(functions=V2000 + V3000, lean=["final", "v2000", "reader"], diff=["io"], bounded=[("c08", None)]),
-    "C09": dict(probes=["v5"], functions=WRITER + V3000, lean=["final", "writer", "v30line"], diff=["io"], bounded=[("c09", None)]),
+    "C08": dict(functions=V2000 + V3000 + CANON + SERIAL, lean=["final", "v2000", "reader"], diff=["io"], bounded=[("c08", None)]),
+    "C09": dict(probes=["v5"], functions=WRITER + V3000 + PARSER + CANON + SERIAL, lean=["final", "writer", "v30line"], diff=["io"], bounded=[("c09", None)]),
     "C10": dict(functions=PARSER, lean=["parser"], diff=["parser"], bounded=[("c10", None)]),
     "C11": dict(probes=["v3"], functions=PARSER + CANON + SERIAL, lean=["final", "roundtrip", "parser", "canonicalize", "layout", "finallabels"], diff=["parser", "pipeline"], bounded=[("c11", None)]),
     "C12": dict(functions=CANON + SERIAL, lean=["canonicalize", "relabel", "finallabels"], diff=["pipeline"], bounded=[("pipeline", "c12")]),
